@@ -48,6 +48,9 @@ def run_seed(sid):
         if RECORD:
             with open(os.path.join(d, 'meta.json'), 'w') as fh:
                 json.dump(meta, fh, indent=1)
+        if meta.get('accepted_exit') == 2 and all(rc == 2 for rc, _ in res.values()):
+            # a documented limit of the analysis: the check refuses to decide (exit 2), it does not pass the change
+            return 'ok', 'exit 2 (documented limit: %s)' % meta.get('limit', '')[:120]
         caught = [p_ for p_, (rc, _) in res.items() if rc == 1]
         broken = [p_ for p_, (rc, _) in res.items() if rc == 2]
         if caught:
